@@ -13,6 +13,7 @@
 #include <sys/wait.h>
 #include <sys/mman.h>
 #include <signal.h>
+#include <malloc.h>
 #include <memory>
 #include <functional>
 #include <algorithm>
@@ -371,7 +372,7 @@ static Shared *shm = 0;
 static void on_alarm(int) { _exit(99); }
 // runs body(i, emit) for i in [0,n) in forked children; on a crash of case i calls crashed(i, sig, sub) in the parent
 static void forked(long n, const std::function<void(long, std::string &)> &body,
-                   const std::function<void(long, int, long, std::string &)> &crashed, FILE *out, int alarm_s = 30) {
+                   const std::function<void(long, int, long, std::string &)> &crashed, FILE *out, int alarm_s = 240) {
 	if (!shm) shm = (Shared *)mmap(0, sizeof(Shared), PROT_READ | PROT_WRITE, MAP_SHARED | MAP_ANONYMOUS, -1, 0);
 	long start = 0;
 	while (start < n) {
@@ -826,6 +827,9 @@ static int mode_selftest() {
 }
 
 int main(int argc, char **argv) {
+	// every construction allocates and frees a few 32 KB exponentiation tables: without this glibc gives the top of the
+	// heap back to the kernel and asks for it again on every case (brk + page zeroing dominate the run time)
+	mallopt(M_TRIM_THRESHOLD, 1 << 30); mallopt(M_TOP_PAD, 256 << 20); mallopt(M_MMAP_THRESHOLD, 64 << 20);
 	if (!init_libTMCG()) { fprintf(stderr, "init_libTMCG failed\n"); return 2; }
 	quiet_cerr(); install_terminate("drv_group");
 	seam::seed(1);
